@@ -657,10 +657,19 @@ def c08(tier):
     rj = random.Random(818 + run.seed)
     for prof in ("dev", "release"):
         sj = []
-        for cfg in catalogue(3):
+        for cfg in catalogue(3) + [c for c in catalogue(2) if c["k"] in ("Rsi", "MyRSI", "Roc", "HLNormalizer", "Vsct", "Vst", "WelfordOnline", "CorrelationTrendIndicator")]:
             xs = []
             while len(xs) < 200:
                 xs += [[rj.randint(1, 4), 25] for _ in range(rj.randint(1, 4))] + [[rj.randint(1, 8), 0] for _ in range(rj.randint(2, 7))]
+                # ... and small moves AT the high level: (2^23 + k) * 4, with repeats
+                hv = [[8388608 + rj.randint(0, 3), 2] for _ in range(2)]
+                xs += ([[-rj.randint(1, 2), 25]] if rj.random() < 0.5 else []) + [hv[0], hv[1], hv[1], hv[0], hv[0]][:rj.randint(2, 5)] + [[rj.randint(1, 8), 0]]
+                # ... and a monotone run of such moves longer than the window (the jump leaves, the absorbed moves stay)
+                # ... a jump, one absorbed move, then that value repeated for a window: all changes in the window are zero, yet the
+                # value before the window differs
+                xs += [[rj.randint(1, 8), 0], hv[0], [hv[0][0] + 1, 2], [hv[0][0] + 1, 2], [hv[0][0] + 1, 2], [rj.randint(1, 8), 0]]
+                b0 = 8388608 + rj.randint(0, 3)
+                xs += ([[-1, 25]] if rj.random() < 0.5 else []) + [[b0 + j, 2] for j in range(6)][::rj.choice([1, -1])] + [[rj.randint(1, 8), 0]]
             sj.append({"cfg": cfg, "unit": 1, "mode": "alive", "eps": [1, 1], "float": "f32", "pairs": True, "xs": xs[:200], "k": 1})
         run.submit(p3_stream_job, "rdy-f32-jumps-%s" % prof, "C08", sj, profile=prof)
     big = [with_child(o, {"k": "Tanh"}) for o in catalogue(2) if o["k"] not in ("Echo", "Constant", "Add", "Subtract", "Multiply", "Divide", "Tanh")] + [{"k": "Tanh"}]
